@@ -1565,6 +1565,7 @@ def main():
         done.add(n); order.append(n)
     for n in names: visit(n)
     refb = _ref_blocks(os.path.join(out_path, 'Model.lean'))
+    _load_ref_consts(os.path.join(out_path, 'Model.lean'))
     inlined = inline_new_helpers(emitted, refb)
     if inlined: sys.stderr.write('mir2lean: inlined helpers that are new w.r.t. the reference: ' + ', '.join(sorted(inlined)) + '\n')
     for n in order: out.append(orient_like_reference(emitted[n][0], refb)); out.append('')
@@ -1601,6 +1602,7 @@ def _canon(text):
             else:
                 items.append(t)
         # x.powi(2) is compiler-rt's 1.0 * (x * x), and 1.0 * y = y exactly in IEEE-754: the same function as x * x, bit for bit
+        if len(items) == 3 and items[1] == ':' and items[2] == 'α' and items[0] in REF_SCALAR_CONSTS: return REF_SCALAR_CONSTS[items[0]]
         if len(items) == 3 and items[0] == 'Flt.powi' and items[2] == '(2 : Int)': return '(sq ' + items[1] + ')'
         if len(items) == 3 and items[1] == '*' and items[0] == items[2]: return '(sq ' + items[0] + ')'
         if len(items) == 3 and items[1] in ('+', '*'):
@@ -1629,6 +1631,26 @@ def _ref_blocks(path):
         if m: blocks[m.group(1)] = b.strip('\n')
     return blocks
 
+REF_SCALAR_CONSTS = {}     # 'C.NAME' -> literal text '(Flt.lit 0x.. n d)' as defined in the reference file
+
+def _load_ref_consts(path):
+    """scalar f64 constants of the reference Gen file: a named constant and its literal are the same value"""
+    REF_SCALAR_CONSTS.clear()
+    import subprocess
+    txt = None
+    d = os.path.dirname(os.path.abspath(path))
+    try:
+        top = subprocess.run(['git', '-C', d, 'rev-parse', '--show-toplevel'], capture_output=True, text=True)
+        if top.returncode == 0:
+            rel = os.path.relpath(os.path.abspath(path), top.stdout.strip())
+            r = subprocess.run(['git', '-C', d, 'show', 'HEAD:' + rel], capture_output=True, text=True)
+            if r.returncode == 0: txt = r.stdout
+    except Exception:
+        txt = None
+    if txt is None and os.path.exists(path): txt = open(path).read()
+    for m in re.finditer(r'^def (C\.\w+) \{α : Type\} \[Flt α\] : α := (\(Flt\.lit 0x[0-9A-F]+ \d+ \d+\))\s*$', txt or '', flags=re.M):
+        REF_SCALAR_CONSTS[m.group(1)] = m.group(2)
+
 def _walk(s, i, refmap, collect):
     """s[i] == '(' ; returns (text, canon, index after the group).  With `collect` (a dict) the orientation of every
     commutative node is recorded (canon of node -> canon of its first operand); otherwise nodes are oriented like `refmap`."""
@@ -1642,6 +1664,22 @@ def _walk(s, i, refmap, collect):
             k = j
             while k < len(s) and s[k] not in ' \n()': k += 1
             items.append((s[j:k], s[j:k])); pieces.append(s[j:k]); j = k
+    # a scalar constant and the literal it is defined as are the same value: canonical form is the literal; written the way
+    # the reference writes it at that value
+    if len(items) == 3 and items[1][0] == ':' and items[2][0] == 'α' and items[0][0] in REF_SCALAR_CONSTS:
+        lit = REF_SCALAR_CONSTS[items[0][0]]
+        if collect is not None:
+            collect.setdefault('form:' + lit, items[0][0]); return '(' + ''.join(pieces) + ')', lit, j + 1
+        want = refmap.get('form:' + lit)
+        if want == 'lit': return lit, lit, j + 1
+        return '(' + ''.join(pieces) + ')', lit, j + 1
+    if len(items) == 4 and items[0][0] == 'Flt.lit':
+        lit = '(' + ' '.join(t for t, _ in items) + ')'
+        if collect is not None:
+            collect.setdefault('form:' + lit, 'lit'); return '(' + ''.join(pieces) + ')', lit, j + 1
+        want = refmap.get('form:' + lit)
+        if want and want != 'lit' and REF_SCALAR_CONSTS.get(want) == lit: return '(' + want + ' : α)', lit, j + 1
+        return '(' + ''.join(pieces) + ')', lit, j + 1
     sqform = None
     if len(items) == 3 and items[0][0] == 'Flt.powi' and items[2][1] == '(2 : Int)': sqform, sqt, sqc = 'powi', items[1][0], items[1][1]
     elif len(items) == 3 and items[1][0] == '*' and items[0][1] == items[2][1]: sqform, sqt, sqc = 'mul', items[0][0], items[0][1]
